@@ -76,7 +76,9 @@ func (fr *Frame) exec(in ssa.Instruction, st *State, g string) {
 			} else if sc := x.Common().StaticCallee(); sc != nil {
 				ck = funcKey(sc)
 			}
+			fr.lastCallRes = res // `hint after` clauses may name the callee's results: callresult, callresult0, callresult1 ...
 			fr.applyHints("after", ck, x.Block(), st, g, nil)
+			fr.lastCallRes = nil
 		}
 		if x.Type() != nil {
 			if tup, ok := x.Type().(*types.Tuple); ok {
@@ -818,6 +820,12 @@ func (fr *Frame) applyHints(where, calleeKey string, b *ssa.BasicBlock, st *Stat
 		if res != nil {
 			fr.bindResults(env, res)
 		}
+		for i, r := range fr.lastCallRes {
+			env.vars[fmt.Sprintf("callresult%d", i)] = r
+			if i == 0 {
+				env.vars["callresult"] = r
+			}
+		}
 		t, err := env.evalBool(h.Clause.E)
 		fr.curLocals, fr.curLocalAddrs = nil, nil
 		if err != nil && where == "return" {
@@ -1141,6 +1149,7 @@ func (fr *Frame) localsAt(h *ssa.BasicBlock, pidx int) (map[string]func(*State) 
 			}
 		}
 	}
+	fr.namedHeapVars(h, out, addrs) // ext_kviter.go: captured (heap-allocated) variables without an address debug ref
 	return out, addrs
 }
 
